@@ -256,7 +256,7 @@ func VerifLemma_C11B_Reorder() {
 	for i := 0; i < n; i++ {
 		verifAssert(position[i] >= 0, "every input file is in the reordered image")
 		for _, j := range deps[i] {
-			verifAssert(position[j] >= 0 && position[j] > position[i], "after reordering imports precede their importers")
+			verifAssert(position[j] >= 0 && position[j] < position[i], "after reordering imports precede their importers")
 		}
 		found := image.GetFile(paths[i])
 		verifAssert(found != nil && found.Path() == paths[i], "GetFile finds every file")
